@@ -62,13 +62,11 @@ long double pow(long double a, double b){return pow(a,(long double)(b));};
 template <typename Scalar>
 MASA::manufactured_solution<Scalar>::manufactured_solution()
 {  
-  std::vector<Scalar> dumvec;
-
   num_vars=0;                   // default -- will ++ for each registered variable
+  num_vec=0;                    // default -- will ++ for each registered vector
   dummy=0;
-  dumvec.resize(2);
   vararr.push_back(&dummy);   // dummy used to start index at correct location
-  vecarr.push_back(&dumvec);   // dummy used to start index at correct location
+  vecarr.push_back(NULL);     // placeholder (never dereferenced) used to start index at correct location
   }
 
 // define PI and other constants
